@@ -32,3 +32,20 @@ claim("C13", "model_checking", "TLA+ transcription of map.wa refines the finite-
       "Trusted: TLC, the program renderer (operations interpreted from a byte string by a small Wa loop, so map operations use variable keys), "
       "`wa run` as executor. Not decided: NaN keys, mutation during range, maps of maps.",
       "DESIGN.md section 4 C13")
+
+claim("C21", "model_checking", "TLA+ spec of client positions and transcribed server mapping (TLC, all transitions) + replay of every transition on a real LSPServer + TLC validation of recorded random sessions",
+      "LspSync.tla: client = LSP's definition of UTF-16 line/character positions over code points of 1-4 UTF-8 bytes incl. an astral one, CRLF and LF; "
+      "server = mapper.go's line table and unit-counting loop transcribed. TLC checks InSync/ErrorsExact over all documents up to the bound x all "
+      "client-valid ranges x all inserted texts, two-change notifications, full changes and three classes of invalid ranges; every one of those "
+      "transitions (5*10^5 quick) is executed on a real LSPServer (DidOpen/DidChange) and the stored text compared with the client's. Random client "
+      "sessions (documents up to 40-60 code points, 1-3 changes per notification) are recorded from the real server and validated by TLC (LspSyncTrace).",
+      "Trusted: TLC, the in-package accessor reading LSPServer.fileMap, the symbol-to-UTF-8 table of the harness. Scope: .wa URIs; lone CR excluded; "
+      "positions inside a surrogate pair and line = last+1 are neither required to be accepted nor rejected.",
+      "DESIGN.md section 4 C21")
+claim("C25", "model_checking", "TLA+ spec of writer/channel/reader (TLC invariant over every case) + replay of every case on the real Writer/Reader with TLC-chosen chunking",
+      "Slip.tla models the stuffing writer, the SLIPMUX wrapping incl. the CoAP FCS16, a channel that cuts the wire at every set of up to 2 positions (as "
+      "ordinary short reads and as empty reads), and the byte loop of Reader.ReadPacket under SlipMuxReader's prefix accumulation. TLC checks "
+      "delivered = sent for every case (payload alphabets with END/ESC/ESC_END/ESC_ESC and one representative per UTF-8 byte class, 1-3 packets); every case is "
+      "executed on the real code with a transport that serves exactly those chunks; wire bytes and delivered packets are compared.",
+      "Trusted: TLC, the chunking transport of the harness. Domain: non-empty payloads, valid frame types, CoAP payload >= 4 bytes.",
+      "DESIGN.md section 4 C25")
